@@ -14,8 +14,8 @@
                defaulting (LexParser::new_with_lex_flags);
    - [re_bad]  the offsets of rule lines whose regular expression the regex
                crate refuses to compile (Rule::new is opaque here);
-   - [fx]      which of the two proposed span repairs are applied (both false =
-               the code as it is today). *)
+   - [fx]      which of the four proposed repairs are applied (record [fixes];
+               all false = the code as it is today). *)
 From Coq Require Import List Arith NArith Bool Lia.
 From GV Require Import Common.Outcome.
 Import ListNotations.
